@@ -200,3 +200,6 @@ func vDump(name string, x uint64) {}
 // confinement mode (C18): z is the receiver, ops the shared operands. Native: no-ops.
 func vConfineBegin(z *Decimal, ops []*Decimal) {}
 func vConfineEnd(z *Decimal)                   {}
+
+// specByte converts a specification integer in [0, 255] to a byte.
+func specByte(a sInt) byte { return byte(a.Uint64()) }
